@@ -41,7 +41,7 @@ pub const PROPS: &[PropInfo] = &[
         rule: "one case = one DDL-heavy history (CREATE/DROP/CREATE UNIQUE INDEX inside committed and rolled-back transactions, name reuse, reopen); non-trivial = at least one DDL statement ran inside a session and a later statement resolved that name; distinct = distinct fingerprints" },
     PropInfo { id: "C16", engine: Engine::Sql, level: "exploration", quick_runs: 4000, thorough_runs: 100000, watchdog_s: 20,
         rule: "one case = one history into which malformed, mutated and ill-typed statements are injected at arbitrary points of arbitrary sessions; non-trivial = at least one injected statement was rejected inside an open session and the state was compared afterwards; distinct = distinct fingerprints" },
-    PropInfo { id: "C06", engine: Engine::Sql, level: "exploration", quick_runs: 800, thorough_runs: 30000, watchdog_s: 30,
+    PropInfo { id: "C06", engine: Engine::Sql, level: "exploration", quick_runs: 4000, thorough_runs: 30000, watchdog_s: 30,
         rule: "one case = one history followed by plan-variant families of the same logical query (index scan vs predicate no index serves; point vs range form); non-trivial = the variants of at least one family used different physical operators according to EXPLAIN; distinct = distinct fingerprints" },
 ];
 
@@ -165,6 +165,15 @@ pub fn profile_for(id: &str, rng: &mut Rng) -> Profile {
             }
             p.w_vacuum = rng.range(4, 10) as u32;
             p.w_reopen = *rng.pick(&[0, 3]);
+        }
+        "C06" => {
+            p.plan_probes = true;
+            p.ddl_rich = true; // indexes created before or after the data
+            p.constraints = rng.chance(60);
+            p.colliding_keys = rng.chance(50); // duplicate join keys
+            p.w_check = 14;
+            p.w_ddl = 8;
+            p.max_tables = 2;
         }
         "C15" => {
             p.ddl_rich = true;
